@@ -6,7 +6,9 @@ from msdparser import MSDParserError
 
 from .. import gen, models, ops
 from ..core import RunResult, HarnessError, shash
-from ..facades import Facade
+from ..facades import Facade, make_disk
+
+NATIVE_LIKE = ("native", "realos")
 from ..models import (LoadError, ref_detect, ref_encoding, ref_load, universal_newlines,
                       DEFAULT_ENCODINGS)
 from ..simdisk import SimDisk, norm, LISTDIR
@@ -151,7 +153,7 @@ def generate(prop, rng, run, tier):
         files["/Songs/" + pack_name + ext] = b"beside".hex()
     if rng.random() < 0.2:
         files["/Songs/" + pack_name.upper() + "X.png"] = b"other".hex()
-    cfg = {"facade": rng.choice(["simfs", "native"]),
+    cfg = {"facade": gen.wchoice(rng, [("simfs", 46), ("native", 46), ("memoryfs", 4), ("realos", 4)]),
            "listing": rng.choice(["sorted", "stable", "stable", "reshuffle", "reshuffle"]),
            "listing_seed": rng.randint(0, 10 ** 6),
            "strict": rng.random() < 0.5,
@@ -242,7 +244,7 @@ def expected_load(data, name, cfg, facade):
     if enc is None:
         return LoadError("UnicodeDecodeError")
     text = data.decode(enc)
-    if facade == "native":
+    if facade in NATIVE_LIKE:
         text = universal_newlines(text)
     strict = bool(cfg.get("strict", True))
     kind = ref_detect(name, text, strict)
@@ -308,14 +310,15 @@ def check_c19(sc, res):
     facade = cfg["facade"]
     tree = Tree(sc["world"])
     pack = norm(sc["pack"])
-    disk = SimDisk(sc["world"], {"listing": cfg.get("listing", "sorted"),
-                                 "listing_seed": cfg.get("listing_seed", 0), "short_reads": 99})
+    disk = make_disk(sc["world"], {"listing": cfg.get("listing", "sorted"),
+                                   "listing_seed": cfg.get("listing_seed", 0), "short_reads": 99},
+                     None, facade)
     kw_load = _load_kwargs(cfg)
     ign = bool(cfg.get("ignore_duplicate"))
     spelling = cfg.get("spelling")
     with Facade(facade, disk) as fa:
         def npath(p):
-            return norm(fa.normpath(p))
+            return norm(fa.unroot(fa.normpath(p)))
 
         def judge_loaded(label, got_outcome, d, chosen_entry):
             """got_outcome: ('ok', simfile) | ('exc', name).  Compare with the reference
@@ -348,7 +351,7 @@ def check_c19(sc, res):
         for d in all_dirs:
             sm, ssc = tree.simfiles_in(d)
             dup = len(sm) > 1 or len(ssc) > 1
-            arg = _spell(d, spelling)
+            arg = fa.p(_spell(d, spelling))
             mark = len(disk.listings)
             try:
                 sd = SimfileDirectory(arg, ignore_duplicate=ign, **fa.kw)
@@ -438,7 +441,7 @@ def check_c19(sc, res):
                      cfg.get("encoding"), spelling,
                      shash(tuple(e.lower().rpartition(".")[2] for e in tree.entries(d))) & 0xffff)
         # ---------------- the pack
-        parg = _spell(pack, spelling)
+        parg = fa.p(_spell(pack, spelling))
         want_dirs = set()
         for e in tree.entries(pack):
             sub = pack + "/" + e
@@ -588,7 +591,8 @@ def check_c19(sc, res):
                 res.stats["probe:lenient-option-reached:" + label] += 1
         res.note("pack", facade, cfg.get("listing"), len(want_dirs), ign, kw_load["strict"],
                  cfg.get("encoding"), spelling, has_dup)
-    res.steps += len(disk.events)
+    res.steps += len(disk.events) + len(disk.listings)
+    res.stats["probe:facade:" + facade] += 1
     res.log("c19", disk.log_digest())
 
 
@@ -603,12 +607,12 @@ def check_c20(sc, res):
     facade = cfg["facade"]
     tree = Tree(sc["world"])
     pack = norm(sc["pack"])
-    disk = SimDisk(sc["world"], {"listing": cfg.get("listing", "sorted"),
-                                 "listing_seed": cfg.get("listing_seed", 0)})
+    disk = make_disk(sc["world"], {"listing": cfg.get("listing", "sorted"),
+                                   "listing_seed": cfg.get("listing_seed", 0)}, None, facade)
     spelling = cfg.get("spelling")
     with Facade(facade, disk) as fa:
         def npath(p):
-            return norm(fa.normpath(p))
+            return norm(fa.unroot(fa.normpath(p)))
 
         for d in sorted(x for x in tree.dirs if x.startswith(pack + "/") and
                         x.count("/") == pack.count("/") + 1):
@@ -621,7 +625,7 @@ def check_c20(sc, res):
             exp = expected_load(data, chosen, lcfg, facade)
             if isinstance(exp, LoadError):
                 continue
-            arg = _spell(d, spelling)
+            arg = fa.p(_spell(d, spelling))
             try:
                 if cfg.get("assets_self_load"):
                     assets = Assets(arg, strict=False, **fa.kw)
@@ -632,7 +636,7 @@ def check_c20(sc, res):
                         else Assets(arg, strict=False, **fa.kw)
                     via = "dir.assets"
                 else:
-                    sf = sfm.open(d + "/" + chosen, strict=False, **fa.kw)
+                    sf = sfm.open(fa.p(d + "/" + chosen), strict=False, **fa.kw)
                     assets = Assets(arg, simfile=sf, **fa.kw)
                     via = "explicit"
             except Exception as e:
@@ -661,7 +665,7 @@ def check_c20(sc, res):
                     a1 = getattr(assets, attr)
                     # between the two questions the directory is listed again by somebody
                     # else (reshuffle mode gives a different order every time)
-                    if facade == "simfs":
+                    if facade in ("simfs", "memoryfs"):
                         fa.fs.listdir(arg)
                     a2 = getattr(assets, attr)
                 except Exception as e:
@@ -690,7 +694,7 @@ def check_c20(sc, res):
                                     specified=specified, admissible=sorted(admissible), why=why,
                                     entries=entries)
                         return
-                    if a1 != fa.normpath(a1):
+                    if a1 != fa.normpath(a1):  # noqa
                         res.violate(P, "asset-path-not-normalised", dir=d, asset=kind, got=a1)
                         return
                     res.stats["probe:asset-" + why] += 1
@@ -701,9 +705,10 @@ def check_c20(sc, res):
                     if len(admissible) > 1:
                         res.stats["probe:several-admissible"] += 1
                 res.note("asset", facade, kind, why, a1 is None, len(admissible), via,
-                         cfg.get("listing"), spelling, bool(specified) and "/" in (specified or ""))
+                         cfg.get("listing"), spelling, bool(specified) and "/" in (specified or ""),
+                         shash(tuple(sorted(e.lower() for e in entries))) & 0xffff)
         # ---------------- pack banner
-        parg = _spell(pack, spelling)
+        parg = fa.p(_spell(pack, spelling))
         try:
             sp = SimfilePack(parg, **fa.kw)
             b1 = sp.banner()
@@ -746,7 +751,8 @@ def check_c20(sc, res):
             return
         res.stats["probe:pack-banner-" + why] += 1
         res.note("packbanner", facade, why, len(admissible), cfg.get("listing"), spelling)
-    res.steps += len(disk.events)
+    res.steps += len(disk.events) + len(disk.listings)
+    res.stats["probe:facade:" + facade] += 1
     res.log("c20", disk.log_digest())
 
 
